@@ -104,6 +104,31 @@ func runC01(c *Cfg) {
 			}
 		}
 	})
+	// with a retry wait configured (all attempts failing, or a late success): the lifecycle is what it is without a wait —
+	// in particular no post after an exec phase that failed
+	var ww []*scen.Scenario
+	for kind := 0; kind < scen.NumScriptedKinds; kind++ {
+		if !scen.KindHasRetry(kind) {
+			continue
+		}
+		for n := 2; n <= 3; n++ {
+			for _, k := range []int{n, n + 1} {
+				for _, fb := range []int{0, 1, 2} {
+					if fb > 0 && !scen.KindCanFB(kind) || (fb == 0 && scen.KindCanFB(kind) && kind < scen.KFnOptRes) {
+						continue
+					}
+					ns := scen.NodeSpec{Kind: kind, N: n, HasFB: fb > 0, WaitMs: 1, ErrKind: scen.AllErrKinds[(kind+n+k)%len(scen.AllErrKinds)], Visits: []scen.Visit{{FirstOK: k, FBErr: fb == 2, Post: "go"}}}
+					ww = append(ww, &scen.Scenario{Nodes: []scen.NodeSpec{ns}, Root: 0, Runs: 1})
+					ww = append(ww, &scen.Scenario{Nodes: []scen.NodeSpec{ns, {Kind: scen.KPlain, N: 1, Visits: []scen.Visit{{FirstOK: 1, Post: "fin"}}}, {Kind: scen.KFlow, N: 1, Flow: &scen.FlowSpec{Start: 0, Conns: []scen.Conn{{From: 0, Action: "go", To: 1}}}}}, Root: 2, Runs: 1})
+				}
+			}
+		}
+	}
+	parallelN(c, len(ww), 32, func(i int) {
+		judgeFor(c, "C01", "with-a-retry-wait", ww[i])
+		r.Count("with_retry_wait.cases", 1)
+		r.Nontrivial("ww:" + scenSig(ww[i]))
+	})
 	// a node object whose first run never started (its context was done already) runs normally afterwards
 	var pc []*scen.Scenario
 	for kind := 0; kind < scen.NumScriptedKinds; kind++ {
